@@ -464,15 +464,15 @@ PROPS['C18'] = dict(
 
 PROPS['C13'] = dict(
     level='other',
-    level_text=('PARTIAL: unbounded proofs (Verus/Z3) about the pure key-list transformation Overrides::override_keys and the functions it is built from, on text cut from parser/src/cfg/key_override.rs each run. '
+    level_text=('Unbounded proofs (Verus/Z3) about the pure key-list transformation Overrides::override_keys and every function it is built from (per call; not the history-level half of the statement), on text cut from parser/src/cfg/key_override.rs each run. '
                 'Proved: (1) override_keys, whole: with no overrides configured nothing happens; otherwise the list is scanned once, front to back, starting from a CLEAN scratch state (nothing from the previous tick survives: '
                 '"no override output key stays pressed"), a modifier is remembered in the mask, any other key goes through the selection with the modifiers that came before it; afterwards exactly the keys marked for removal are '
                 'taken out - every other key stays, in order ("keys outside the combination are unaffected") - and the keys to add are appended. (2) What a selected override marks: add_override_keys puts the output modifiers and the output key into '
                 'the add list (each once, nothing else), add_removed_keys puts the whole input combination - its modifiers and its one non-modifier key - into the remove list. (3) mask_for_key gives the eight modifiers eight distinct bits and '
                 'nothing else a bit; get_mod_mask is the union of the bits of the input modifiers. '
-                'NOT decided: the SELECTION itself ("when several overrides of the same key match, the one with the most modifiers wins": Overrides::update_keys is an iterator filter whose closure mutates a captured counter, then .last() - outside Verus; '
-                'its effect on the two lists is an uninterpreted function here), Override::try_new (validation, iterator chains), the eager-erasure marking, release-on-activation and everything on the Kanata side (what the OS then sees over a history).'),
-    level_note=('Trusted: rustc, Verus+Z3, extractor. Assumed: Overrides::update_keys (uninterpreted effect), OverrideStates::add_overrides (one statement of iterator adaptors: appends the add list, converted), Vec::retain (R42 helper: predicate called once per element, front to back), '
+                '(4) THE SELECTION ("when several overrides of the same key match, the one with the most modifiers wins"): Overrides::update_keys selects with ovds.iter().filter(CLOSURE).last(), the closure keeping a running maximum in a captured counter. The closure BODY is a fragment (select_step: captured counter as a &mut parameter): one call is one step of the scan - accepted iff the override\'s modifiers are all held and it has MORE modifiers than anything accepted so far; lemma_scan_picks_most_modifiers: the last accepted override is a matching one with the largest number of modifiers among ALL matching overrides of the key (the first such in table order), nothing is accepted iff none matches; update_keys itself, cut whole with the iterator chain replaced by a helper whose contract is that scan: no overrides for the key or none matching - both lists untouched; otherwise the selected override\'s output keys go into the add list and its whole input combination into the remove list, nothing else. ASSUMED there: the std meaning of filter / last (closure called once per element, in order; last accepted element returned). '
+                'NOT decided: Override::try_new (validation, iterator chains), the eager-erasure marking, release-on-activation and everything on the Kanata side (what the OS then sees over a history).'),
+    level_note=('Trusted: rustc, Verus+Z3, extractor. Assumed: Iterator::filter / last (std meaning), FxHashMap::get, OverrideStates::add_overrides (one statement of iterator adaptors: appends the add list, converted), Vec::retain (R42 helper: predicate called once per element, front to back), '
                 '`v.iter().copied()` = the items front to back (R17), <[T]>::contains = membership, FxHashMap::is_empty, KeyCode <-> OsCode conversions uninterpreted (C11). Type invariant of Override assumed as a precondition of get_mod_mask: in_mod_oscs holds modifiers only (else `.expect("mod only")` panics).'),
     technique='contract-based deductive verification (Verus): ensures over a recursive fold (run/step) of the scan, loop invariants over ghost iterators, closure postcondition for the retain predicate',
     design_ref='DESIGN.md section 9.1b (C13)',
@@ -482,7 +482,7 @@ PROPS['C13'] = dict(
     verus=[dict(unit='overrides')],
     kani=[],
     assumptions=[
-        'NOT decided: Overrides::update_keys - which override of a key is selected (longest matching modifier set) - because its filter closure mutates a captured counter; it is a stub whose effect on (oscs_to_add, oscs_to_remove) is uninterpreted',
+        'the selection: `ovds.iter().filter(CLOSURE).last()` is replaced by a helper whose contract is the recursive scan (R47; ASSUMED std meaning of filter / last); the closure body is the fragment select_step with the captured counter as a `&mut` parameter (every use `cur_chord_size` -> `(*cur_chord_size)`, R46); update_keys is verified under the name update_keys_impl, while its callers (OverrideStates::update, hence override_keys) see a stub whose effect is an uninterpreted function constrained by the same predicate upd_ok that update_keys_impl is proved to satisfy',
         'NOT decided: Override::try_new (exactly one non-modifier key in and out), Overrides::new (grouping by input key), mark_overridden_nonmodkeys_for_eager_erasure, override_release_on_activation and the emission in Kanata::handle_keystate_changes',
         'OBSERVATION (from the proved scan order): a modifier counts for a key only if it comes BEFORE that key in the list of keys being held',
         'precondition of get_mod_mask (type invariant established by try_new, not under contract): every key of in_mod_oscs is one of the eight modifiers',
